@@ -342,6 +342,12 @@ fn sample_slot(n: u64) -> bool {
     n == 1 || n == 2 || n == 10 || n == 100 || n == 1000 || n == 10000 || n == 100000
 }
 
+/// Development aid: VERIF_ONLY_SUB=<name> runs just that sub-check (never set by the registered
+/// commands).
+fn skip_sub(sub: &str) -> bool {
+    matches!(std::env::var("VERIF_ONLY_SUB"), Ok(v) if !v.is_empty() && v != sub)
+}
+
 impl Report {
     pub fn new(ctx: Ctx) -> Self {
         let replay_case = ctx.replay.as_ref().map(|p| {
@@ -520,6 +526,9 @@ impl Report {
         G: Fn() -> S + Sync,
         F: Fn(&C) -> TestResult + Sync,
     {
+        if skip_sub(sub) {
+            return;
+        }
         start_watchdog(300);
         let mut pre = ShardStats::new();
         let go = self.pre_run::<C, F>(sub, &test, &mut pre);
@@ -681,6 +690,9 @@ impl Report {
         I: Iterator<Item = C>,
         F: Fn(&C) -> TestResult + Sync,
     {
+        if skip_sub(sub) {
+            return;
+        }
         let mut pre = ShardStats::new();
         let go = self.pre_run::<C, F>(sub, &test, &mut pre);
         let mut sr = SubReport {
